@@ -362,7 +362,7 @@ impl MH {
         match self {
             MH::R(m) => m.compute_ff_tokens(),
             MH::C(c) => {
-                let mut out = vec![0u32; 256];
+                let mut out = vec![0u32; 70_000];
                 let r =
                     unsafe { llg_matcher_compute_ff_tokens(c.r(), out.as_mut_ptr(), out.len()) };
                 if r < 0 {
